@@ -41,8 +41,11 @@ class C18(PropBase):
             elif k == "junk":
                 steps.append("data:%s:eof" % (b"\x00\xff garbage \x80\n" + bytes(range(128, 200)) + b"\nGGGG").hex())
         healthy = base + 15
-        steps.append("data:%s:eof" % (F.df11(5, healthy, 0) + "\n" + F.df17(5, healthy, F.me_ident(4, 3, F.callsign_codes("AFTER"))) + "\n").encode().hex())
-        expect.add(healthy)
+        # the first line of the healthy connection is the only frame of its aircraft: nothing left over from a dropped
+        # connection (a partial line, say) may be glued to it
+        first = base + 14
+        steps.append("data:%s:eof" % (F.df11(5, first, 0) + "\n" + F.df11(5, healthy, 0) + "\n" + F.df17(5, healthy, F.me_ident(4, 3, F.callsign_codes("AFTER"))) + "\n").encode().hex())
+        expect.add(healthy); expect.add(first)
         return ";".join(steps), expect
 
     def explore(self, rep, run, rng, tier, driver_ok):
